@@ -31,6 +31,7 @@ func Config(cl *memcluster.Cluster, proto int, ips ...string) *gocql.ClusterConf
 	}
 	cfg.PoolConfig.HostSelectionPolicy = gocql.RoundRobinHostPolicy()
 	cfg.Consistency = gocql.One
+	cfg.ReconnectionPolicy = &gocql.ConstantReconnectionPolicy{MaxRetries: 1, Interval: time.Millisecond}
 	gocql.VerifDisableControlConn(cfg)
 	return cfg
 }
